@@ -262,10 +262,13 @@ def selfcheck(fast=False):
             assert decode(e[:k]) is None
     # segmentations against brute force
     syms = ["a", "b", "ab", "é", "aé"]
-    for x in strings_over(syms, 3):
+    table = defaultdict(list)                       # brute force: encode every symbol string of <= 6 symbols
+    for y in strings_over(syms, 4 if fast else 6):
+        table[encode(y)].append(y)
+    for x in strings_over(syms, 2):
         bs = encode(x)
-        brute = sorted(y for y in strings_over(syms, len(bs)) if encode(y) == bs)
-        assert sorted(segmentations(bs, syms)) == brute, (x, bs)
+        if len(bs) <= (4 if fast else 6):
+            assert sorted(segmentations(bs, syms)) == sorted(table[bs]), (x, bs)
     assert segmentations((0xC3,), syms) == [] and segmentations((), syms) == [()]
 
     # wfsa_language against wfsa_weight on all strings, automata with epsilon cycles
